@@ -22,6 +22,22 @@ pub fn scratch_root() -> PathBuf {
     PathBuf::from(format!("{}/nunmc-{}", base, std::process::id()))
 }
 
+/// scratch directories of runs that were killed (their pid no longer exists)
+pub fn remove_stale_scratch() {
+    for base in ["/dev/shm", "/tmp"] {
+        if let Ok(rd) = std::fs::read_dir(base) {
+            for e in rd.flatten() {
+                let name = e.file_name().to_string_lossy().to_string();
+                if let Some(pid) = name.strip_prefix("nunmc-") {
+                    if !std::path::Path::new(&format!("/proc/{}", pid)).exists() {
+                        let _ = std::fs::remove_dir_all(e.path());
+                    }
+                }
+            }
+        }
+    }
+}
+
 pub fn cleanup_scratch() {
     let _ = std::fs::remove_dir_all(scratch_root());
 }
